@@ -317,8 +317,36 @@ def r10_4(run):
         # only in-service rows
         filt = [n for n in own_walk(m.node) if isinstance(n, ast.Assign) and isinstance(n.value, ast.Subscript)
                 and "active_identifier" in U(n.value.slice)]
-        run.ob("%s|in-service-rows-only" % cname, bool(filt),
+        # ... and exactly those: the row mask of the element table is its own active flag and nothing else.  Whether the junction
+        # an element sits on is calculated is decided by the connectivity search (it can put a junction back in service), not
+        # by a flag the component reads itself -- an ext grid dropped here leaves a calculated junction without its pressure.
+        def _strip(t):
+            while t[0] == "attr" and t[2] == "values" or (t[0] == "call" and t[1][0] == "attr" and t[1][2] == "to_numpy" and not t[2]):
+                t = t[1] if t[0] == "attr" else t[1][1]
+            return t
+        masks = []
+        for c in rm.calls():
+            if c.fn != ("f", f.qualname) or len(c.args) < 7:
+                continue
+            for sub in walk(c.args[2]):
+                if sub[0] == "idx" and len(sub[2]) == 1 and any(x[0] == "call" and x[1][0] == "attr" and x[1][2] == "active_identifier"
+                                                                 for x in walk(sub[2][0])):
+                    inner = _strip(sub[2][0])
+                    if inner[0] == "idx" and tkey(inner[1]) == tkey(sub[1]) and len(inner[2]) == 1 and inner[2][0][0] == "call" \
+                            and inner[2][0][1][0] == "attr" and inner[2][0][1][2] == "active_identifier":
+                        masks.append((True, sub[2][0]))
+                    elif not (inner[0] == "call" and inner[1][0] == "attr" and inner[1][2] == "active_identifier"):
+                        masks.append((False, sub[2][0]))
+        if filt and not masks:
+            raise AnalysisError("unrecognised shape: the row filter of %s.create_pit_node_entries is not table[mask]" % cname)
+        # (term level: a mask kept in a temporary or spelled with to_numpy() is the same filter)
+        run.ob("%s|in-service-rows-only" % cname, bool(masks),
                "%s passes only rows whose active identifier is set" % cname, run.where(m, m.node))
+        bad = [mk for okk, mk in masks if not okk]
+        run.ob("%s|row-filter-is-own-active-flag" % cname, bool(masks) and not bad,
+               "the rows %s hands to set_fixed_node_entries are selected by table[table[active_identifier]] and by nothing else "
+               "(an element of a calculated junction is never dropped because of a flag of another table)" % cname,
+               run.where(m, m.node), detail=tshow(bad[0])[:200] if bad else None)
     # ---- circulation pump outlet temperature and pinned thermal row
     cp = [c for c in ix.all_classes() if c.name == "CirculationPump"][0]
     m = cp.methods["create_pit_branch_entries"]
@@ -342,7 +370,7 @@ def r10_4(run):
                    colname in got and got[colname].plain() is not None and got[colname].plain() == Poly.const(val),
                    "%s pins its thermal branch row: %s = %d on all its rows" % (sub, colname, val),
                    run.where(ix.lookup_method(ci, "adaption_after_derivatives_thermal"), ix.lookup_method(ci, "adaption_after_derivatives_thermal").node))
-    run.floor(18)
+    run.floor(20)
 
 
 def r10_5(run):
